@@ -5,19 +5,20 @@
 (* to exactly the files of the split, every file's content = its view, independent of the load order.           *)
 EXTENDS Integers, Sequences, FiniteSets, TLC, Json, IOUtils, SequencesExt, FiniteSetsExt
 
-CONSTANTS Mode, NFiles, Reorder
+CONSTANTS Mode, NFiles, Reorder,
+          Small     \* TRUE: the elements t and i always accompany s (a smaller family for three files)
 VARIABLE x
 
 Files == 1..NFiles
 NE(S) == (SUBSET S) \ {{}}
 \* master: packages a, b at top level; a contains ELEMENTS {s, t, i} and the nested package a/p; b contains ELEMENTS {u}
 \* split: files of a, b (subsets of Files); of s, t, i (subsets of fa); of p (subset of fa); of u (subset of fb)
-Splits == {[a |-> fa, b |-> fb, s |-> fs, t |-> ft, i |-> fi, p |-> fp, u |-> fu] :
-             fa \in NE(Files), fb \in NE(Files), fs \in NE(Files), ft \in NE(Files), fi \in NE(Files), fp \in NE(Files), fu \in NE(Files)}
-Good(sp) == /\ sp.s \subseteq sp.a /\ sp.t \subseteq sp.a /\ sp.i \subseteq sp.a /\ sp.p \subseteq sp.a /\ sp.u \subseteq sp.b
-            /\ sp.a \cup sp.b = Files                       \* every file has some content
-            \* the containers exist in a file only if something is in them there; ELEMENTS of a is in f iff some element of it is
-            /\ \A f \in sp.a : (f \in sp.s \cup sp.t \cup sp.i) \/ f \in sp.p \/ TRUE
+\* (built constructively: every child's files are a non-empty subset of its parent's files, every file has some content)
+TI(fs, fa) == IF Small THEN {fs} ELSE NE(fa)
+Splits == UNION {UNION {UNION {
+              {[a |-> fa, b |-> fb, s |-> fs, t |-> ft, i |-> fi, p |-> fp, u |-> fu] : ft \in TI(fs, fa), fi \in TI(fs, fa), fp \in NE(fa), fu \in NE(fb)} :
+                 fs \in NE(fa)} : fb \in {y \in NE(Files) : fa \cup y = Files}} : fa \in NE(Files)}
+Good(sp) == TRUE
 Sig(n) == "<SYSTEM-SIGNAL><SHORT-NAME>" \o n \o "</SHORT-NAME></SYSTEM-SIGNAL>"
 ISig(n) == "<I-SIGNAL><SHORT-NAME>" \o n \o "</SHORT-NAME></I-SIGNAL>"
 Pkg(n, inner) == "<AR-PACKAGE><SHORT-NAME>" \o n \o "</SHORT-NAME>" \o inner \o "</AR-PACKAGE>"
@@ -58,7 +59,8 @@ AllOk(r) == \A j \in 1..Len(r.loads) : r.loads[j] = "ok"
 Union(r) == AllOk(r) /\ r.dup = <<>> /\ [j \in 1..Len(r.merged) |-> r.merged[j].p] = [j \in 1..Len(r.exp) |-> r.exp[j].p]
 Attribution(r) == AllOk(r) => r.merged = r.exp
 FileContent(r) == AllOk(r) => \A f \in 1..Len(r.filecanon) : r.filecanon[f] = r.viewcanon[f]
-OrderIndependent(j) == \A i \in 1..Len(Log) : (i < j /\ Log[i].id = Log[j].id) => Log[i].mergedcanon = Log[j].mergedcanon
+\* the records of one split (one per load order, at most 4! of them) are adjacent in the log
+OrderIndependent(j) == \A i \in (IF j > 24 THEN j - 24 ELSE 1)..(j - 1) : Log[i].id = Log[j].id => Log[i].mergedcanon = Log[j].mergedcanon
 Report(j, pred) == PrintT(<<"V", ToJson([step |-> j, pred |-> pred, prop |-> "C09", id |-> Log[j].id, order |-> Log[j].order, loads |-> Log[j].loads,
                                           merged |-> Log[j].merged, dup |-> Log[j].dup])>>)
 Judge(j) == LET r == Log[j] IN
